@@ -54,6 +54,18 @@ def build_db(ft, lemmas, goal_variant):
         t = mmgen.apply('rule-r', fr, {'ph0': ph1}, [('l4.0', [])])
         st.append(('block', [('block', [('e', 'l4.0', (TH, ph1)),
                                         ('p', 'l4', (TH, A('\\f', ph1)), mmref.encode_compressed(t, mand(['ph1']) + ['l4.0'], 'none'))])]))
+    if 'L5' in lemmas:
+        # a global $d over three variables, an axiom with its own $d, and a lemma that needs $d ph0 ph1 to use it
+        st.append(('d', ('ph0', 'ph1', 'ph2')))
+        st.append(('block', [('d', ('ph0', 'ph1')), ('a', 'ax-d', (TH, IMP(ph0, IMP(ph1, ph0))))]))
+        _, fr5 = frames_of(st)
+        t = mmgen.apply('ax-d', fr5, {'ph0': ph0, 'ph1': ph1}, [])
+        st.append(('p', 'l5', (TH, IMP(ph0, IMP(ph1, ph0))), mmref.encode_compressed(t, mand(['ph0', 'ph1']), 'none')))
+    if 'L6' in lemmas:
+        # a $d that names a variable occurring nowhere else in the lemma
+        t = mmgen.apply('proof-rule-prop-1', fr, {'ph0': ph0, 'ph1': ph1}, [])
+        st.append(('block', [('d', ('ph0', 'ph2')),
+                             ('p', 'l6', (TH, IMP(ph0, IMP(ph1, ph0))), mmref.encode_compressed(t, mand(['ph0', 'ph1']), 'none'))]))
     _, fr = frames_of(st)
     # goal variants
     if goal_variant == 'refl' and 'L1' in lemmas:
@@ -74,6 +86,12 @@ def build_db(ft, lemmas, goal_variant):
     elif goal_variant == 'notation' and ft.notation and 'L2' in lemmas:
         target = A('\\f', A('\\nt', A('c1')))
         t = mmgen.apply('l2', fr, {'ph0': A('\\nt', A('c1'))}, [('ax-n', [])])
+    elif goal_variant == 'gdv' and 'L5' in lemmas:
+        target = IMP(c0, IMP(A('c1'), c0))
+        t = mmgen.apply('l5', fr, {'ph0': c0, 'ph1': A('c1')}, [])
+    elif goal_variant == 'dvextra' and 'L6' in lemmas:
+        target = IMP(c0, IMP(A('c1'), c0))
+        t = mmgen.apply('l6', fr, {'ph0': c0, 'ph1': A('c1')}, [])
     elif goal_variant == 'axiom':
         target = IMP(c0, A('c1'))
         t = ('ax-a', [])
@@ -89,9 +107,9 @@ def specs(thorough):
     orders = [(0, 1, 2), (2, 0, 1), (1, 2, 0)] if thorough else [(0, 1, 2), (1, 2, 0)]
     for o in orders:
         for notation in (False, True):
-            for k in range(0, 5):
-                for lem in itertools.combinations(('L1', 'L2', 'L3', 'L4'), k):
-                    for gv in ('refl', 'rule', 'both', 'dv', 'nested', 'notation', 'axiom'):
+            for k in range(0, 7 if thorough else 4):
+                for lem in itertools.combinations(('L1', 'L2', 'L3', 'L4', 'L5', 'L6'), k):
+                    for gv in ('refl', 'rule', 'both', 'dv', 'nested', 'notation', 'gdv', 'dvextra', 'axiom'):
                         out.append((o, notation, lem, gv))
     return out
 
@@ -160,6 +178,12 @@ def slices(db, desc, orig_model):
         n += 1
         text = Encoder.encode_string(sl)
         try:
+            from proof_generation.metamath.parser import parse_database
+            parse_database(text)
+        except Exception as ex:  # noqa: BLE001
+            viols.append((dict(kind='slice_does_not_reparse', lemma_kind=_kind(label)), desc, f'{desc}: the slice for {label} does not re-parse: {str(ex)[:160]}'))
+            continue
+        try:
             model = mmref.parse_text(text)
             v = mmref.verify_db(model)
         except Exception as ex:  # noqa: BLE001
@@ -178,7 +202,7 @@ def slices(db, desc, orig_model):
 
 
 def _kind(label):
-    return {'l1': 'plain', 'l2': 'essential', 'l3': 'disjoint', 'l4': 'nested'}.get(label, 'goal')
+    return {'l1': 'plain', 'l2': 'essential', 'l3': 'disjoint', 'l4': 'nested', 'l5': 'global_dv', 'l6': 'dv_extra_var'}.get(label, 'goal')
 
 
 def db_chunk(sps):
